@@ -44,6 +44,8 @@ RtCalls ==
     \cup {NewRt("error", k, <<"r", "err">>) : k \in (IF st.srv.inv # 0 THEN {st.srv.inv} ELSE {})}
     \cup (IF Misuse THEN {NewRt("response", k, <<"r", "stale">>) : k \in {j \in DOMAIN st.iv : j # st.srv.inv}}
                          \cup {NewRt("response", 0, <<"r", "unknown">>), NewRt("initerror", 0, <<"r", "init">>)}
+                         \* a response-mode header that is refused: the caller is answered, the runtime cannot go on
+                         \cup {[NewRt("response", k, <<"r", "badmode">>) EXCEPT !.mode = "bad"] : k \in (IF st.srv.inv # 0 THEN {st.srv.inv} ELSE {})}
           ELSE {})
 
 AgentCalls ==
